@@ -2,6 +2,6 @@ SPECIFICATION RSpec
 CONSTANTS
   HandlerChoices <- HandlersM
   ScriptChoices <- ScriptsM
-INVARIANTS C03_Gate C03_Order C03_Refused C03_InOrder C05_Reject C05_Args C03_MwAfterGate C12_MwStages
+INVARIANTS C03_Gate C03_Order C03_Refused C03_InOrder C05_Reject C05_Args C05_Valid C03_MwAfterGate C12_MwStages
 PROPERTIES C14_Done
 CHECK_DEADLOCK FALSE
